@@ -270,6 +270,51 @@ def _history_worker(args):
     return acc.result()
 
 
+# ---- the cipher-suite list inside its message: repeated composition --------------------------------------------------
+def _hello_worker(args):
+    """A client hello carrying code c (alone / first / second of two): every compose() of the parsed message yields
+    the same bytes as the first one, and the decoded suite list is not changed by composing."""
+    part, parts, thorough = args[:3]
+    only = args[3] if len(args) > 3 else None
+    acc = core.Acc()
+    from cryptoparser.tls.subprotocol import TlsHandshakeClientHello
+    from cryptoparser.tls.ciphersuite import TlsCipherSuiteFactory
+    from mc.ref import tls_ref
+    tab = code_table(TlsCipherSuiteFactory.get_enum_class())
+    codes = range(65536) if thorough else sorted(set(range(256)) | set(tab) | GREASE2 | {0x00ff, 0x5600, 0xeeee})
+    known = sorted(tab)[1]
+    if only is not None:
+        codes = [only]
+    for i, code in enumerate(codes):
+        if i % parts != part:
+            continue
+        for ctx_name, suites in (('only', [code]), ('first_of_two', [code, known]), ('second_of_two', [known, code])):
+            wire = tls_ref.client_hello(0x0303, 0, bytes(28), b'', suites, [0], None)
+            acc.counters['transitions'] = acc.counters.get('transitions', 0) + 1
+            w = {'kind': 'hello', 'code': code, 'context': ctx_name}
+            try:
+                o = TlsHandshakeClientHello.parse_exact_size(wire)
+            except Exception:  # noqa - acceptance of the message is C06's subject
+                continue
+            before = [getattr(x, 'name', None) or getattr(getattr(x, 'value', None), 'code', x) for x in list(o.cipher_suites)]
+            try:
+                outs = [bytes(o.compose()) for _ in range(3)]
+            except Exception as e:  # noqa
+                acc.violation('hello:compose_raises:%s' % type(e).__name__, 'client hello with suite %#06x cannot be '
+                              'composed repeatedly' % code, w)
+                continue
+            after = [getattr(x, 'name', None) or getattr(getattr(x, 'value', None), 'code', x) for x in list(o.cipher_suites)]
+            if outs[1] != outs[0] or outs[2] != outs[0]:
+                acc.violation('hello:recompose_differs', 'client hello with suite %#06x composes to different bytes the '
+                              'second / third time (%d, %d, %d bytes)' % (code, len(outs[0]), len(outs[1]), len(outs[2])),
+                              w)
+            elif after != before:
+                acc.violation('hello:list_changed_by_compose', 'composing a client hello with suite %#06x changed its '
+                              'decoded suite list from %d to %d entries' % (code, len(before), len(after)), w)
+        acc.state(core.h64('hello', code))
+    return acc.result()
+
+
 # ---- IntEnum-typed wire fields substituted in place --------------------------------------------------------
 def field_table():
     """(label, class, seed bytes, offset, width, byteorder, enum, free)
@@ -509,6 +554,7 @@ def run(ctx):
     ctx.pmap(_vector_worker, items)
     nv = len(code_vectors())
     ctx.pmap(_history_worker, [(a, b, thorough) for a in range(nv) for b in range(nv) if a != b], fresh=True)
+    ctx.pmap(_hello_worker, [(p, 16, thorough) for p in range(16)])
     ctx.pmap(_field_worker, [(i, thorough) for i in range(len(field_table()))])
     ctx.assumptions += [
         'cryptodatahub enumeration tables are data (trusted base); the no-alias clause is still evaluated on them',
@@ -520,7 +566,7 @@ def run(ctx):
                            'every ordered pair of list containers as a two-step history in a fresh process (parse '
                            'code c in A, then the full oracle for c in B; c over 0..255, both tables and GREASE - the '
                            'whole common space in the thorough tier); '
-                           '3-byte space (<=2 non-zero bytes quick, all 2^24 thorough); IntEnum-typed fields '
+                           'cipher-suite codes inside a client hello composed three times; 3-byte space (<=2 non-zero bytes quick, all 2^24 thorough); IntEnum-typed fields '
                            'substituted in place over their whole space; every member (and case spelling, prefix '
                            'pair) of every string-coded enumeration; static no-alias clause over every enumeration')
 
@@ -546,6 +592,12 @@ def replay(ctx, w):
             if classes.qualname(v) == w['vector']:
                 res = _vector_worker((vi, w['code'], w['code'] + 1))
                 return res[1][0] if res[1] else None
+    if k == 'hello':
+        res = _hello_worker((0, 1, True, w['code']))
+        for v in res[1]:
+            if v['witness'].get('code') == w.get('code') and v['witness'].get('context') == w.get('context'):
+                return v
+        return res[1][0] if res[1] else None
     if k == 'history':
         vecs = [classes.qualname(v) for v in code_vectors()]
         res = _history_worker((vecs.index(w['after']), vecs.index(w['vector']), True))
